@@ -77,6 +77,9 @@ def run(ck):
     ck.rule("C09-O6", "the dates that decide the daily rotation and name rotated files come from one time base")
     from rules.rfs import time_base_agreement
     time_base_agreement(ck, S, "C09-O6")
+    ck.rule("C09-O7", "the state init() reads the day of the active file's content from (its modification time) is written by the sink wherever it writes buffered records out without rotating: destruction and flush()")
+    from rules.rfs import day_readback
+    day_readback(ck, S, "C09-O7")
     # ---- O4
     ren = [n for n in rt.calls() if destructive_kind(n) == "rename"]
     ok = len(ren) == 1 and ren[0].get("callee") == "QFile::rename" and ren[0].get("static") and len(ren[0].get("args", [])) == 2
